@@ -23,7 +23,7 @@ BOUNDS = {
               "separators": "blank, newline, comment, minimal"},
 }
 BOUNDS["thorough"] = dict(BOUNDS["quick"], data=BOUNDS["quick"]["data"].replace("<= 3 items", "<= 4 items"))
-OUTSIDE = ["nullable list items (',,' producing None entries)", "AnyTokenExcept inside sequences", "containers longer than the bound"]
+OUTSIDE = ["omitted items of a nullable item symbol (',,' producing None entries; only complete items and empty bracket pairs are rendered for it)", "AnyTokenExcept inside sequences", "containers longer than the bound"]
 STUBS = []
 ASSUMPTIONS = ["structure is enumerated exhaustively inside the bound"]
 
@@ -123,7 +123,7 @@ def _list_parser(opts):
     return L.LLParser(TOKENIZER, synonyms=dict(SYN), productions={
         "E": [("@", "OUTER", ";")],
         "OUTER": L.ListProds("[" if br else None, "VALUE", "," if dl else None, "]" if br else None, **kw),
-        "VALUE": [("WORD",), ("LIST",), ("MAP",)],
+        "VALUE": [("WORD",), ("LIST",), ("MAP",)] + ([None] if opts.get("nullable") else []),
         "LIST": L.ListProds("[", "VALUE", ",", "]"),
         "MAP": L.MapProds("{", "WORD", ":", "VALUE", ",", "}"),
     })
@@ -178,6 +178,8 @@ def _run_list(parser, opts, items, trailing: bool, present: bool, sep: str) -> N
     text = _join(toks, sep)
     what = f"list options {opts} text {text!r}"
     should_fail = False
+    if opts.get("nullable") and trailing:
+        return          # with an item symbol that may be empty, 'a,]' may also be read as an omitted last item: not specified
     if trailing and not afd:
         should_fail = True
     if trailing and not items:
@@ -323,6 +325,11 @@ def jobs(tier: str) -> List[Job]:
     for i, o in enumerate(LIST_OPTS):
         tag = ("br" if o["brackets"] else "nobr") + ("+dl" if o["delimiter"] else "") + ("+nofinal" if o["afd"] is False else "") + ("+opt" if o["optional"] else "")
         js.append(Job(__name__, "h_list", shard={"opts": o, "n_max": 4 if t else 3}, budget_s=2400 if t else 110, label=f"list:{tag}", must_exhaust=True))
+    for i, o in enumerate(LIST_OPTS):
+        if o["brackets"] and o["delimiter"]:
+            tag = ("+nofinal" if o["afd"] is False else ("+final" if o["afd"] else "")) + ("+opt" if o["optional"] else "")
+            js.append(Job(__name__, "h_list", shard={"opts": dict(o, nullable=True), "n_max": 3 if t else 2}, budget_s=1200 if t else 100,
+                          label=f"list-nullable-item:br+dl{tag}", must_exhaust=True))
     for i, o in enumerate(MAP_OPTS):
         tag = ("final" if o["afd"] else "nofinal") + ("+opt" if o["optional"] else "")
         js.append(Job(__name__, "h_map", shard={"opts": o, "n_max": 3}, budget_s=2400 if t else 110, label=f"map:{tag}", must_exhaust=True))
